@@ -14,18 +14,64 @@ package main
 
 import (
 	"fmt"
+	"sort"
 	"strings"
 )
 
 type tok struct {
-	k byte // 'n' number, 's' string, 'w' word, 'p' punctuation
+	k byte // 'n' number, 's' string, 'w' word, 'p' punctuation, 'L' a whole comma-containing leaf
 	s string
 }
+
+// The comma-containing leaves (calls, indexed literals, null|default(...)) are fixed spellings that
+// contain no operator of the table; the lexer takes each of them as one token, whatever the spacing.
+type opaqueLeaf struct{ spelling, key string }
+
+var opaqueByFirst = func() map[byte][]opaqueLeaf {
+	m := map[byte][]opaqueLeaf{}
+	seen := map[string]bool{}
+	for _, ps := range pools {
+		for _, l := range ps {
+			if !l.comma {
+				continue
+			}
+			for _, sp := range l.src {
+				if !seen[sp] {
+					seen[sp] = true
+					m[sp[0]] = append(m[sp[0]], opaqueLeaf{sp, l.src[0]})
+				}
+			}
+		}
+	}
+	for _, v := range m { // longest first, ties by text: independent of map order
+		sort.Slice(v, func(i, j int) bool {
+			if len(v[i].spelling) != len(v[j].spelling) {
+				return len(v[i].spelling) > len(v[j].spelling)
+			}
+			return v[i].spelling < v[j].spelling
+		})
+	}
+	return m
+}()
 
 func lex(src string) ([]tok, error) {
 	var out []tok
 	for i := 0; i < len(src); {
 		c := src[i]
+		if cands := opaqueByFirst[c]; cands != nil && (i == 0 || !isWordByte(src[i-1])) {
+			matched := false
+			for _, o := range cands {
+				if strings.HasPrefix(src[i:], o.spelling) {
+					out = append(out, tok{'L', o.key})
+					i += len(o.spelling)
+					matched = true
+					break
+				}
+			}
+			if matched {
+				continue
+			}
+		}
 		switch {
 		case c == ' ':
 			i++
@@ -67,6 +113,10 @@ func lex(src string) ([]tok, error) {
 		}
 	}
 	return out, nil
+}
+
+func isWordByte(c byte) bool {
+	return (c >= 'a' && c <= 'z') || (c >= 'A' && c <= 'Z') || c == '_' || (c >= '0' && c <= '9')
 }
 
 // table: precedence level per operator plus the ways a reading can deviate from the statement
@@ -297,6 +347,9 @@ func (p *parser) unary() *node {
 			c = p.bin(4)
 		} else {
 			c = p.atom()
+			if p.tb.strict && c.lf != nil && c.lf.kind == "filtered" {
+				panic(parseErr("open form: -null|default(x)"))
+			}
 			if p.isP("|") && !p.tb.filterLoose {
 				if p.tb.strict {
 					panic(parseErr("open form: -a|abs"))
@@ -342,7 +395,7 @@ func (p *parser) atom() *node {
 			n = &c
 		}
 		return n
-	case t.k == 'n' || t.k == 's':
+	case t.k == 'n' || t.k == 's' || t.k == 'L':
 		p.i++
 		return p.leafNode(t.s)
 	case t.k == 'p' && t.s == "[":
